@@ -17,6 +17,8 @@ struct S
 union U
     u1
     u_void
+    u_void2
+    u_void3
     u2 String
     us S
 
@@ -61,6 +63,8 @@ struct S
 union U
     u1
     u_void Int32?
+    u_void2 Leaf
+    u_void3 S?
     u2 String
     us S
     u3 Leaf
